@@ -33,6 +33,10 @@ pub fn run(ctx: &RunCtx) -> PropResult {
     p2.phase = "history-deep";
     p2.gen = GenParams { nkeys: 2, ts_span: 3, metas: 3, max_ops: ctx.tier.pick(110, 220) as usize, w_write: 64, w_delete: 8, w_switch: 10, w_wait: 4, w_reopen: 5, ..Default::default() };
     run_profile(ctx, &p2, ctx.tier.pick(500, 12_000), &mut report);
+    let mut p3 = profile();
+    p3.phase = "history-scale";
+    p3.gen = GenParams { nkeys: 3, ts_span: 4, metas: 3, max_ops: 12, w_write: 40, w_delete: 25, w_switch: 10, w_wait: 5, w_reopen: 12, ..Default::default() };
+    run_profile_scale(ctx, &p3, ctx.tier.pick(48, 1200), &mut report);
     PropResult {
         report,
         level: "exploration",
